@@ -96,7 +96,7 @@ m = {
  "engines": [
    {"name": "vlib", "path": "/verif/vlib", "serves_properties": [c["property_id"] for c in checks],
     "kind_free_text": "python orchestration of runtime monitors: real prebuild/aa-log binaries and an in-process Go worker (links /repo packages) observed by reference-parser, model and history oracles"},
-   {"name": "vworker", "path": "/verif/worker", "serves_properties": [],
+   {"name": "vworker", "path": "/verif/worker", "serves_properties": [c["property_id"] for c in checks if c["property_id"] in ("C02", "C03", "C05", "C06", "C07", "C09", "C10", "C11", "C12", "C13", "C15", "C16")],
     "kind_free_text": "Go JSON-lines worker calling the exported API of /repo's packages (one child process per batch or per sequence)"},
  ],
  "checks": checks,
